@@ -1,3 +1,4 @@
+pub mod admin;
 pub mod data;
 
 use crate::report::ShardReport;
@@ -31,6 +32,10 @@ pub async fn dispatch(ctx: &Ctx, rep: &mut ShardReport) -> bool {
     match ctx.check.as_str() {
         "C01" | "C02" | "C03" | "C07" | "C14" | "C15" | "C16" | "C17" | "C18" | "C19" => {
             data::run(ctx, rep).await;
+            true
+        }
+        "C05" | "C06" => {
+            admin::run(ctx, rep).await;
             true
         }
         _ => false,
